@@ -82,6 +82,10 @@ type API struct {
 	NewZlibWriterLevelDict func(w io.Writer, level int, dict []byte) (Writer, error)
 	NewZlibReader          func(r io.Reader) (ZlibReader, error)
 	NewZlibReaderDict      func(r io.Reader, dict []byte) (ZlibReader, error)
+
+	// zero-value Writers (var z gzip.Writer), to be armed with Reset
+	ZeroGzipWriter func() GzipWriter
+	ZeroZlibWriter func() Writer
 }
 
 // ---- fastgo ----
@@ -154,7 +158,9 @@ var Fastgo = &API{
 		}
 		return fgGzipR{z}, nil
 	},
-	NewZlibWriter: func(w io.Writer) Writer { return fgZlibW{fzlib.NewWriter(w)} },
+	ZeroGzipWriter: func() GzipWriter { return fgGzipW{new(fgzip.Writer)} },
+	ZeroZlibWriter: func() Writer { return fgZlibW{new(fzlib.Writer)} },
+	NewZlibWriter:  func(w io.Writer) Writer { return fgZlibW{fzlib.NewWriter(w)} },
 	NewZlibWriterLevel: func(w io.Writer, level int) (Writer, error) {
 		z, err := fzlib.NewWriterLevel(w, level)
 		if err != nil || z == nil {
@@ -232,7 +238,9 @@ var Stdlib = &API{
 		}
 		return sdGzipR{z}, nil
 	},
-	NewZlibWriter: func(w io.Writer) Writer { return szlib.NewWriter(w) },
+	ZeroGzipWriter: func() GzipWriter { return sdGzipW{new(sgzip.Writer)} },
+	ZeroZlibWriter: func() Writer { return new(szlib.Writer) },
+	NewZlibWriter:  func(w io.Writer) Writer { return szlib.NewWriter(w) },
 	NewZlibWriterLevel: func(w io.Writer, level int) (Writer, error) {
 		z, err := szlib.NewWriterLevel(w, level)
 		if err != nil || z == nil {
